@@ -86,11 +86,15 @@ PLANS = {
         "level": "exploration",
         "rule": "Circuit::hpwl() (cross-checked against the reference HPWL) recorded at every Detailed callback and on return; "
                 "must be non-increasing and end <= legalize-only copy; non-trivial = wirelength strictly decreased at least once; "
-                "distinct = feature signature x outcome x callback count",
+                "distinct = feature signature x outcome x callback count. Part c05.meddle: Detailed callbacks from the second on write "
+                "positions of movable cells (multi-row ones included) through the setters that stay available during a call; the "
+                "exposed wirelengths must not rise, except where the same run under a passive callback shows the same rise (that one "
+                "is judged by the c05.* flow parts)",
         "assumptions": ["a rise is attributed to the known finding only if the frozen-orientation wirelength did not rise and a polarised cell with pins changed orientation"],
         "runs": flow("c05", ["general", "nets", "polarity", "dense", "multirow", "rowhigh-any"], "asan", 2000, 8000)
                 + flow("c05", ["general", "nets", "polarity", "dense", "multirow", "rowhigh-any"], "fast", 0, 12000)
                 + [R("h_dp", "asan", "c05.opt", 6000, 30000), R("h_dp", "fast", "c05.opt", 0, 60000), R("h_dp", "asan", "c05.reorder", 12000, 40000), R("h_dp", "fast", "c05.reorder", 30000, 200000)]
+                + [R("h_flow", "asan", "c05.meddle", 4000, 8000), R("h_flow", "fast", "c05.meddle", 0, 30000)]
                 + flow("c05", CROWDED, "asan", 400, 2000) + flow("c05", CROWDED, "fast", 0, 10000)
                 + flow("c05", FARAWAY, "asan", 2000, 8000) + flow("c05", FARAWAY, "fast", 0, 20000)
                 + flow("c05", ["big"], "asan", 1000, 4000) + flow("c05", ["staggered"], "asan", 600, 3000),
